@@ -77,6 +77,8 @@ def check_placement(ctx, src, funcs, rule="PLACEMENT", comp=None, facts=None):
             if key not in got:
                 k = f"{fn}|slot {role}|{key[1]}|{key[2]}|missing"
                 what = "statements" if key[1] == "stmts" else "value"
-                ctx.bad(rule, k, f"the {what} of sub-form `{role.split(':')[1]}` no longer reach {key[2]}", compq.RM, 0,
-                        witness="the sub-form's effects or value are lost on the path that used this placement")
+                # Not finding a reviewed placement is not evidence of a defect: the flow may have moved into a shape the
+                # engine does not follow (a helper, a container).  Dropped statements are R-LIN's business (C11), which
+                # reports the construct that drops them.
+                ctx.unres(rule, k, f"the reviewed placement of the {what} of sub-form `{role.split(':')[1]}` in {key[2]} was not found")
     return facts
